@@ -4,6 +4,7 @@ go 1.23
 
 require (
 	github.com/robertkrimen/otto v0.0.0-20191219234010-c382bd3c16ff
+	github.com/robfig/gettext v0.0.0-20200526193151-a093425df149
 	github.com/robfig/soy v0.0.0-00010101000000-000000000000
 	golang.org/x/tools v0.29.0
 )
@@ -13,6 +14,7 @@ require (
 	golang.org/x/mod v0.22.0 // indirect
 	golang.org/x/sync v0.10.0 // indirect
 	golang.org/x/sys v0.29.0 // indirect
+	golang.org/x/text v0.3.8 // indirect
 	gopkg.in/sourcemap.v1 v1.0.5 // indirect
 )
 
